@@ -17,7 +17,7 @@ P = {
                 text="A (<=2 rows) alone vs A++B (B<=2 rows, disjoint ids): real grouping/aggregation/join code symbolically executed; results on A equal / induce the same partition, no derived id shared across populations; relabelling with injective sign-preserving maps. Bounded.",
                 ref="DESIGN.md#c02"),
     "C03": dict(level="other", tech="typed symbolic execution of every active rule (z3): dynamic return type per path vs numpy.vectorize otypes-from-first-row",
-                text="Every scalar rule is executed symbolically with a dynamic Python type per path; z3 decides whether two valid rows exist such that the dtype inferred from the first row cannot hold the second row's value (truncation/coercion), and whether a path returns a wider type than declared. Each model is replayed through the real compute_taxes_and_transfers in both row orders.",
+                text="Every scalar rule is executed symbolically with a dynamic Python type per path; z3 decides whether two valid rows exist such that the dtype inferred from the first row cannot hold the second row's value (truncation/coercion), and whether a path returns a wider type than declared. The value equation is proved through the wrapper production really calls, and the production column's dtype must be of the declared kind wherever it is determinate. Each model is replayed through the real compute_taxes_and_transfers in both row orders.",
                 ref="DESIGN.md#c03"),
     "C04": dict(level="other", tech="symbolic node-definition equivalence (z3) across target sets on graphs built by the real loader",
                 text="For pairs of target sets the real loader builds both graphs; for every common node z3 proves equality of its symbolic definition (same callable semantics, same parents) for all parent values; by induction over the DAG values agree for all data. Result assembly/debug are outside the solver claim.",
@@ -38,7 +38,7 @@ P = {
                 text="For every rule with a rounding key x date class the real wrapper from _add_rounding_to_functions is executed on a free real and z3 proves grid membership, direction, |error| < base and offset against the spec read independently from YAML (wrappers taken from per-rule calls and from one production-shaped call over all functions, both orders); derived time-unit/aggregate nodes are proved not to round again.",
                 ref="DESIGN.md#c10"),
     "C11": dict(level="other", tech="bounded SMT over symbolic columns: real aggregation/join source vs textbook definition, N<=3/4",
-                text="The real grouped_*, sum_by_p_id, join_numpy source is executed on symbolic columns (library calls modelled, models conformance-tested each run) and z3 proves equality with the mathematical definition for all ids/values at N<=3 (quick) / 4 (thorough); spec precedence and result types by node-definition equivalence on real loader graphs.",
+                text="The real grouped_*, sum_by_p_id, join_numpy source is executed on symbolic columns (library calls modelled, models conformance-tested each run) and z3 proves equality with the mathematical definition for all ids/values at N<=3 (quick) / 4 (thorough), float32 columns included; the whole-column look-up rules are proved to read exactly the row their pointer names; spec precedence and result types by node-definition equivalence on real loader graphs.",
                 ref="DESIGN.md#c11"),
     "C12": dict(level="other", tech="rulesym + z3 on the real *_id_numpy functions (guarded dictionaries/lists for the Python containers) against pairwise unit obligations, N<=3 quick / 4 thorough / 5 where affordable; per parameter variant; CrossHair second engine at N=3",
                 text="The real *_id_numpy functions are executed symbolically (rulesym: Python dict/list code through guarded containers; z3 decides) on symbolic pointer structures and must satisfy the pairwise obligations of the unit definitions, nesting and id non-collision for every row order, one obligation per order; encoder validated against the real function on random structures each run; every model replayed. Bounded N<=3 quick / 4 thorough (eg/sn/bg/wthh also 5). CrossHair confirms the non-fg conditions independently at N=3.",
